@@ -7,31 +7,17 @@ Set Printing Width 100000000.
 Set Printing Depth 100000000.
 Fixpoint bs (l : list nat) : string := match l with [] => EmptyString | n :: r => String (Ascii.ascii_of_nat n) (bs r) end.
 Definition T_ (b : bool) : string := if b then "T" else "F".
-Definition t184 : pt := (mkPacket (mkPtok 1 "options" 1 0 0) (Some (mkPtok 3 "}" 39 0 134)) [(DOption (mkOptionDef (mkSpan (mkPtok 1 "options" 1 0 0) (mkPtok 3 "}" 4 0 9)) (mkPtok 1 "options" 1 0 0) (mkPtok 2 "{" 1 8 1) [(mkOptionDecl (mkSpan (mkPtok 42 "StringPrefixLenType" 2 4 2) (mkPtok 41 ";" 2 30 5)) (mkPtok 42 "StringPrefixLenType" 2 4 2) (mkPtok 4 "=" 2 24 3) (VType (mkSpan (mkPtok 23 "u64" 2 26 4) (mkPtok 23 "u64" 2 26 4)) (TyBasic (mkSpan (mkPtok 23 "u64" 2 26 4) (mkPtok 23 "u64" 2 26 4)) (mkBasicType (mkSpan (mkPtok 23 "u64" 2 26 4) (mkPtok 23 "u64" 2 26 4)) (mkPtok 23 "u64" 2 26 4)))) (Some (mkPtok 41 ";" 2 30 5))); (mkOptionDecl (mkSpan (mkPtok 42 "GoPackage" 3 4 6) (mkPtok 31 """codec""" 3 16 8)) (mkPtok 42 "GoPackage" 3 4 6) (mkPtok 4 "=" 3 14 7) (VString (mkSpan (mkPtok 31 """codec""" 3 16 8) (mkPtok 31 """codec""" 3 16 8)) (mkPtok 31 """codec""" 3 16 8)) None)] (mkPtok 3 "}" 4 0 9))); (DMeta (mkMetaDef (mkSpan (mkPtok 37 "MetaData" 5 0 10) (mkPtok 3 "}" 7 0 16)) (mkPtok 37 "MetaData" 5 0 10) (mkPtok 42 "Types" 5 9 11) (mkPtok 2 "{" 5 15 12) [(MIDecl (mkMetaDecl (mkSpan (mkPtok 23 "uint64" 6 4 13) (mkPtok 40 "," 6 18 15)) (TyBasic (mkSpan (mkPtok 23 "uint64" 6 4 13) (mkPtok 23 "uint64" 6 4 13)) (mkBasicType (mkSpan (mkPtok 23 "uint64" 6 4 13) (mkPtok 23 "uint64" 6 4 13)) (mkPtok 23 "uint64" 6 4 13))) (mkPtok 42 "Symbol" 6 11 14) None (mkPtok 40 "," 6 18 15)))] (mkPtok 3 "}" 7 0 16))); (DMeta (mkMetaDef (mkSpan (mkPtok 37 "MetaData" 8 0 17) (mkPtok 3 "}" 10 0 23)) (mkPtok 37 "MetaData" 8 0 17) (mkPtok 42 "M1" 8 9 18) (mkPtok 2 "{" 8 12 19) [(MIDecl (mkMetaDecl (mkSpan (mkPtok 15 "string" 9 4 20) (mkPtok 40 "," 9 20 22)) (TyDynamic (mkSpan (mkPtok 15 "string" 9 4 20) (mkPtok 15 "string" 9 4 20)) (mkDynamicString (mkSpan (mkPtok 15 "string" 9 4 20) (mkPtok 15 "string" 9 4 20)) (mkPtok 15 "string" 9 4 20))) (mkPtok 42 "TargetID" 9 11 21) None (mkPtok 40 "," 9 20 22)))] (mkPtok 3 "}" 10 0 23))); (DPacket (mkPacketDef (mkSpan (mkPtok 35 "packet" 11 0 24) (mkPtok 3 "}" 14 0 43)) None (mkPtok 35 "packet" 11 0 24) (mkPtok 42 "Header" 11 7 25) (mkPtok 2 "{" 11 14 26) [(mkFieldWithAttr (mkSpan (mkPtok 32 "@leftPad" 12 4 27) (mkPtok 40 "," 12 50 37)) [(FAPadding (mkSpan (mkPtok 32 "@leftPad" 12 4 27) (mkPtok 6 ")" 12 22 30)) (mkPaddingAttr (mkSpan (mkPtok 32 "@leftPad" 12 4 27) (mkPtok 6 ")" 12 22 30)) (mkPtok 32 "@leftPad" 12 4 27) (mkPtok 8 "(" 12 13 28) (Some (mkPtok 33 "'\x00'" 12 15 29)) (mkPtok 6 ")" 12 22 30)))] (MetaField (mkSpan (mkPtok 36 "repeat" 12 24 31) (mkPtok 40 "," 12 50 37)) (Some (mkPtok 36 "repeat" 12 24 31)) (mkMetaDecl (mkSpan (mkPtok 14 "zchar[" 12 31 32) (mkPtok 40 "," 12 50 37)) (TyFixed (mkSpan (mkPtok 14 "zchar[" 12 31 32) (mkPtok 13 "]" 12 40 34)) (mkFixedString (mkSpan (mkPtok 14 "zchar[" 12 31 32) (mkPtok 13 "]" 12 40 34)) (mkPtok 14 "zchar[" 12 31 32) (mkPtok 30 "3" 12 38 33) (mkPtok 13 "]" 12 40 34))) (mkPtok 42 "c" 12 42 35) (Some (mkPtok 43 "`doc`" 12 44 36)) (mkPtok 40 "," 12 50 37)))); (mkFieldWithAttr (mkSpan (mkPtok 12 "char[" 13 4 38) (mkPtok 40 "," 13 19 42)) [] (MetaField (mkSpan (mkPtok 12 "char[" 13 4 38) (mkPtok 40 "," 13 19 42)) None (mkMetaDecl (mkSpan (mkPtok 12 "char[" 13 4 38) (mkPtok 40 "," 13 19 42)) (TyFixed (mkSpan (mkPtok 12 "char[" 13 4 38) (mkPtok 13 "]" 13 12 40)) (mkFixedString (mkSpan (mkPtok 12 "char[" 13 4 38) (mkPtok 13 "]" 13 12 40)) (mkPtok 12 "char[" 13 4 38) (mkPtok 30 "1" 13 10 39) (mkPtok 13 "]" 13 12 40))) (mkPtok 42 "note" 13 14 41) None (mkPtok 40 "," 13 19 42))))] (mkPtok 3 "}" 14 0 43))); (DPacket (mkPacketDef (mkSpan (mkPtok 35 "packet" 16 0 44) (mkPtok 3 "}" 23 0 72)) None (mkPtok 35 "packet" 16 0 44) (mkPtok 42 "Party" 16 7 45) (mkPtok 2 "{" 16 13 46) [(mkFieldWithAttr (mkSpan (mkPtok 20 "u8" 17 4 47) (mkPtok 40 "," 17 16 49)) [] (MetaField (mkSpan (mkPtok 20 "u8" 17 4 47) (mkPtok 40 "," 17 16 49)) None (mkMetaDecl (mkSpan (mkPtok 20 "u8" 17 4 47) (mkPtok 40 "," 17 16 49)) (TyBasic (mkSpan (mkPtok 20 "u8" 17 4 47) (mkPtok 20 "u8" 17 4 47)) (mkBasicType (mkSpan (mkPtok 20 "u8" 17 4 47) (mkPtok 20 "u8" 17 4 47)) (mkPtok 20 "u8" 17 4 47))) (mkPtok 42 "msg_type" 17 7 48) None (mkPtok 40 "," 17 16 49)))); (mkFieldWithAttr (mkSpan (mkPtok 38 "match" 18 4 50) (mkPtok 40 "," 21 6 66)) [] (MatchField (mkSpan (mkPtok 38 "match" 18 4 50) (mkPtok 40 "," 21 6 66)) (mkMatchFieldDecl (mkSpan (mkPtok 38 "match" 18 4 50) (mkPtok 3 "}" 21 4 65)) (mkPtok 38 "match" 18 4 50) (mkPtok 42 "msg_type" 18 10 51) (mkPtok 17 "as" 18 19 52) (mkPtok 42 "Data" 18 22 53) (mkPtok 2 "{" 18 27 54) [(mkMatchPair (mkSpan (mkPtok 18 "[" 19 8 55) (mkPtok 40 "," 20 26 64)) (MKList (mkKeyList (mkSpan (mkPtok 18 "[" 19 8 55) (mkPtok 13 "]" 20 15 61)) (mkPtok 18 "[" 19 8 55) (mkPtok 30 "13" 19 10 56) [((mkPtok 40 "," 19 13 57), (mkPtok 30 "1" 20 9 58)); ((mkPtok 40 "," 20 11 59), (mkPtok 30 "8" 20 13 60))] (mkPtok 13 "]" 20 15 61))) (mkPtok 39 ":" 20 17 62) (mkPtok 42 "Header" 20 19 63) (Some (mkPtok 40 "," 20 26 64)))] (mkPtok 3 "}" 21 4 65)) (mkPtok 40 "," 21 6 66))); (mkFieldWithAttr (mkSpan (mkPtok 42 "Checksum" 22 4 67) (mkPtok 40 "," 22 40 71)) [] (CheckSumField (mkSpan (mkPtok 42 "Checksum" 22 4 67) (mkPtok 40 "," 22 40 71)) (mkChecksumFieldDecl (mkSpan (mkPtok 42 "Checksum" 22 4 67) (mkPtok 40 "," 22 40 71)) None (mkPtok 42 "Checksum" 22 4 67) (mkCalculatedFrom (mkSpan (mkPtok 5 "@calculatedFrom(" 22 13 68) (mkPtok 6 ")" 22 38 70)) (mkPtok 5 "@calculatedFrom(" 22 13 68) (mkPtok 31 """CRC32""" 22 30 69) (mkPtok 6 ")" 22 38 70)) None (mkPtok 40 "," 22 40 71))))] (mkPtok 3 "}" 23 0 72))); (DPacket (mkPacketDef (mkSpan (mkPtok 34 "root" 24 0 73) (mkPtok 3 "}" 39 0 134)) (Some (mkPtok 34 "root" 24 0 73)) (mkPtok 35 "packet" 24 5 74) (mkPtok 42 "Ack" 24 12 75) (mkPtok 2 "{" 24 16 76) [(mkFieldWithAttr (mkSpan (mkPtok 20 "u8" 25 4 77) (mkPtok 40 "," 25 12 79)) [] (MetaField (mkSpan (mkPtok 20 "u8" 25 4 77) (mkPtok 40 "," 25 12 79)) None (mkMetaDecl (mkSpan (mkPtok 20 "u8" 25 4 77) (mkPtok 40 "," 25 12 79)) (TyBasic (mkSpan (mkPtok 20 "u8" 25 4 77) (mkPtok 20 "u8" 25 4 77)) (mkBasicType (mkSpan (mkPtok 20 "u8" 25 4 77) (mkPtok 20 "u8" 25 4 77)) (mkPtok 20 "u8" 25 4 77))) (mkPtok 42 "code" 25 7 78) None (mkPtok 40 "," 25 12 79)))); (mkFieldWithAttr (mkSpan (mkPtok 38 "match" 26 4 80) (mkPtok 40 "," 29 6 96)) [] (MatchField (mkSpan (mkPtok 38 "match" 26 4 80) (mkPtok 40 "," 29 6 96)) (mkMatchFieldDecl (mkSpan (mkPtok 38 "match" 26 4 80) (mkPtok 3 "}" 29 4 95)) (mkPtok 38 "match" 26 4 80) (mkPtok 42 "code" 26 10 81) (mkPtok 17 "as" 26 15 82) (mkPtok 42 "Msg" 26 18 83) (mkPtok 2 "{" 26 22 84) [(mkMatchPair (mkSpan (mkPtok 18 "[" 27 8 85) (mkPtok 40 "," 28 22 94)) (MKList (mkKeyList (mkSpan (mkPtok 18 "[" 27 8 85) (mkPtok 13 "]" 28 11 91)) (mkPtok 18 "[" 27 8 85) (mkPtok 30 "8" 27 10 86) [((mkPtok 40 "," 27 12 87), (mkPtok 30 "21" 27 14 88)); ((mkPtok 40 "," 27 17 89), (mkPtok 30 "0" 28 9 90))] (mkPtok 13 "]" 28 11 91))) (mkPtok 39 ":" 28 13 92) (mkPtok 42 "Header" 28 15 93) (Some (mkPtok 40 "," 28 22 94)))] (mkPtok 3 "}" 29 4 95)) (mkPtok 40 "," 29 6 96))); (mkFieldWithAttr (mkSpan (mkPtok 32 "@leftPad" 30 4 97) (mkPtok 40 "," 31 24 106)) [(FAPadding (mkSpan (mkPtok 32 "@leftPad" 30 4 97) (mkPtok 6 ")" 30 22 100)) (mkPaddingAttr (mkSpan (mkPtok 32 "@leftPad" 30 4 97) (mkPtok 6 ")" 30 22 100)) (mkPtok 32 "@leftPad" 30 4 97) (mkPtok 8 "(" 30 13 98) (Some (mkPtok 33 "'\x00'" 30 15 99)) (mkPtok 6 ")" 30 22 100)))] (MetaField (mkSpan (mkPtok 36 "repeat" 31 4 101) (mkPtok 40 "," 31 24 106)) (Some (mkPtok 36 "repeat" 31 4 101)) (mkMetaDecl (mkSpan (mkPtok 12 "char[" 31 11 102) (mkPtok 40 "," 31 24 106)) (TyFixed (mkSpan (mkPtok 12 "char[" 31 11 102) (mkPtok 13 "]" 31 20 104)) (mkFixedString (mkSpan (mkPtok 12 "char[" 31 11 102) (mkPtok 13 "]" 31 20 104)) (mkPtok 12 "char[" 31 11 102) (mkPtok 30 "16" 31 17 103) (mkPtok 13 "]" 31 20 104))) (mkPtok 42 "a" 31 22 105) None (mkPtok 40 "," 31 24 106)))); (mkFieldWithAttr (mkSpan (mkPtok 22 "uint32" 32 4 107) (mkPtok 40 "," 32 40 112)) [] (LengthField (mkSpan (mkPtok 22 "uint32" 32 4 107) (mkPtok 40 "," 32 40 112)) (mkLengthFieldDecl (mkSpan (mkPtok 22 "uint32" 32 4 107) (mkPtok 40 "," 32 40 112)) (Some (TyBasic (mkSpan (mkPtok 22 "uint32" 32 4 107) (mkPtok 22 "uint32" 32 4 107)) (mkBasicType (mkSpan (mkPtok 22 "uint32" 32 4 107) (mkPtok 22 "uint32" 32 4 107)) (mkPtok 22 "uint32" 32 4 107)))) (mkPtok 42 "BodyLength" 32 11 108) (mkLengthOf (mkSpan (mkPtok 7 "@lengthOf(" 32 22 109) (mkPtok 6 ")" 32 38 111)) (mkPtok 7 "@lengthOf(" 32 22 109) (mkPtok 42 "code" 32 33 110) (mkPtok 6 ")" 32 38 111)) None (mkPtok 40 "," 32 40 112)))); (mkFieldWithAttr (mkSpan (mkPtok 36 "repeat" 33 4 113) (mkPtok 40 "," 33 20 115)) [] (ObjectField (mkSpan (mkPtok 36 "repeat" 33 4 113) (mkPtok 40 "," 33 20 115)) (Some (mkPtok 36 "repeat" 33 4 113)) (mkPtok 42 "TargetID" 33 11 114) None None (mkPtok 40 "," 33 20 115))); (mkFieldWithAttr (mkSpan (mkPtok 16 "char[]" 34 4 116) (mkPtok 40 "," 34 14 118)) [] (MetaField (mkSpan (mkPtok 16 "char[]" 34 4 116) (mkPtok 40 "," 34 14 118)) None (mkMetaDecl (mkSpan (mkPtok 16 "char[]" 34 4 116) (mkPtok 40 "," 34 14 118)) (TyDynamic (mkSpan (mkPtok 16 "char[]" 34 4 116) (mkPtok 16 "char[]" 34 4 116)) (mkDynamicString (mkSpan (mkPtok 16 "char[]" 34 4 116) (mkPtok 16 "char[]" 34 4 116)) (mkPtok 16 "char[]" 34 4 116))) (mkPtok 42 "px" 34 11 117) None (mkPtok 40 "," 34 14 118)))); (mkFieldWithAttr (mkSpan (mkPtok 20 "u8" 35 4 119) (mkPtok 40 "," 35 19 122)) [] (MetaField (mkSpan (mkPtok 20 "u8" 35 4 119) (mkPtok 40 "," 35 19 122)) None (mkMetaDecl (mkSpan (mkPtok 20 "u8" 35 4 119) (mkPtok 40 "," 35 19 122)) (TyBasic (mkSpan (mkPtok 20 "u8" 35 4 119) (mkPtok 20 "u8" 35 4 119)) (mkBasicType (mkSpan (mkPtok 20 "u8" 35 4 119) (mkPtok 20 "u8" 35 4 119)) (mkPtok 20 "u8" 35 4 119))) (mkPtok 42 "price" 35 7 120) (Some (mkPtok 43 "`doc`" 35 13 121)) (mkPtok 40 "," 35 19 122)))); (mkFieldWithAttr (mkSpan (mkPtok 12 "char[" 36 4 123) (mkPtok 40 "," 36 19 127)) [] (MetaField (mkSpan (mkPtok 12 "char[" 36 4 123) (mkPtok 40 "," 36 19 127)) None (mkMetaDecl (mkSpan (mkPtok 12 "char[" 36 4 123) (mkPtok 40 "," 36 19 127)) (TyFixed (mkSpan (mkPtok 12 "char[" 36 4 123) (mkPtok 13 "]" 36 13 125)) (mkFixedString (mkSpan (mkPtok 12 "char[" 36 4 123) (mkPtok 13 "]" 36 13 125)) (mkPtok 12 "char[" 36 4 123) (mkPtok 30 "16" 36 10 124) (mkPtok 13 "]" 36 13 125))) (mkPtok 42 "qty" 36 15 126) None (mkPtok 40 "," 36 19 127)))); (mkFieldWithAttr (mkSpan (mkPtok 5 "@calculatedFrom(" 37 4 128) (mkPtok 40 "," 38 17 133)) [(FACalculatedFrom (mkSpan (mkPtok 5 "@calculatedFrom(" 37 4 128) (mkPtok 6 ")" 37 29 130)) (mkCalculatedFrom (mkSpan (mkPtok 5 "@calculatedFrom(" 37 4 128) (mkPtok 6 ")" 37 29 130)) (mkPtok 5 "@calculatedFrom(" 37 4 128) (mkPtok 31 """CRC32""" 37 21 129) (mkPtok 6 ")" 37 29 130)))] (MetaField (mkSpan (mkPtok 22 "u32" 38 4 131) (mkPtok 40 "," 38 17 133)) None (mkMetaDecl (mkSpan (mkPtok 22 "u32" 38 4 131) (mkPtok 40 "," 38 17 133)) (TyBasic (mkSpan (mkPtok 22 "u32" 38 4 131) (mkPtok 22 "u32" 38 4 131)) (mkBasicType (mkSpan (mkPtok 22 "u32" 38 4 131) (mkPtok 22 "u32" 38 4 131)) (mkPtok 22 "u32" 38 4 131))) (mkPtok 42 "checksum" 38 8 132) None (mkPtok 40 "," 38 17 133))))] (mkPtok 3 "}" 39 0 134)))]).
-Eval vm_compute in ("<<<W184_alias_short>>>" ++ sh_escaped (render (rw_alias_short t184)) "").
-Eval vm_compute in ("<<<W184_alias_long>>>" ++ sh_escaped (render (rw_alias_long t184)) "").
-Eval vm_compute in ("<<<W184_alias_long_opts>>>" ++ sh_escaped (render (rw_alias_long_opts t184)) "").
-Eval vm_compute in ("<<<W184_zchar>>>" ++ sh_escaped (render (rw_zchar t184)) "").
-Eval vm_compute in ("<<<W184_drop_default_pad>>>" ++ sh_escaped (render (rw_drop_default_pad t184)) "").
-Eval vm_compute in ("<<<W184_add_default_pad>>>" ++ sh_escaped (render (rw_add_default_pad t184)) "").
-Eval vm_compute in ("<<<W184_prefix_attr>>>" ++ sh_escaped (render (rw_prefix_attr t184)) "").
-Eval vm_compute in ("<<<W184_default_options>>>" ++ sh_escaped (render (rw_default_options t184)) "").
-Eval vm_compute in ("<<<W184_expand_keys>>>" ++ sh_escaped (render (rw_expand_keys t184)) "").
-Eval vm_compute in ("<<<W184_inline_meta>>>" ++ sh_escaped (render (rw_inline_meta t184)) "").
-Eval vm_compute in ("<<<W184_seps_all>>>" ++ sh_escaped (render (rw_seps_all t184)) "").
-Eval vm_compute in ("<<<W184_seps_none>>>" ++ sh_escaped (render (rw_seps_none t184)) "").
-Eval vm_compute in ("<<<W184_drop_docs>>>" ++ sh_escaped (render (rw_drop_docs t184)) "").
-Definition t220 : pt := (mkPacket (mkPtok 37 "MetaData" 1 0 0) (Some (mkPtok 3 "}" 25 0 84)) [(DMeta (mkMetaDef (mkSpan (mkPtok 37 "MetaData" 1 0 0) (mkPtok 3 "}" 7 0 23)) (mkPtok 37 "MetaData" 1 0 0) (mkPtok 42 "Common" 1 9 1) (mkPtok 2 "{" 1 16 2) [(MIDecl (mkMetaDecl (mkSpan (mkPtok 29 "float64" 2 4 3) (mkPtok 40 "," 2 17 5)) (TyBasic (mkSpan (mkPtok 29 "float64" 2 4 3) (mkPtok 29 "float64" 2 4 3)) (mkBasicType (mkSpan (mkPtok 29 "float64" 2 4 3) (mkPtok 29 "float64" 2 4 3)) (mkPtok 29 "float64" 2 4 3))) (mkPtok 42 "Text" 2 12 4) None (mkPtok 40 "," 2 17 5))); (MIDecl (mkMetaDecl (mkSpan (mkPtok 12 "char[" 3 4 6) (mkPtok 40 "," 3 26 11)) (TyFixed (mkSpan (mkPtok 12 "char[" 3 4 6) (mkPtok 13 "]" 3 12 8)) (mkFixedString (mkSpan (mkPtok 12 "char[" 3 4 6) (mkPtok 13 "]" 3 12 8)) (mkPtok 12 "char[" 3 4 6) (mkPtok 30 "8" 3 10 7) (mkPtok 13 "]" 3 12 8))) (mkPtok 42 "SenderID" 3 14 9) (Some (mkPtok 43 "``" 3 23 10)) (mkPtok 40 "," 3 26 11))); (MIDecl (mkMetaDecl (mkSpan (mkPtok 15 "string" 4 4 13) (mkPtok 40 "," 4 18 15)) (TyDynamic (mkSpan (mkPtok 15 "string" 4 4 13) (mkPtok 15 "string" 4 4 13)) (mkDynamicString (mkSpan (mkPtok 15 "string" 4 4 13) (mkPtok 15 "string" 4 4 13)) (mkPtok 15 "string" 4 4 13))) (mkPtok 42 "Symbol" 4 11 14) None (mkPtok 40 "," 4 18 15))); (MIRef (mkRefMetaDecl (mkSpan (mkPtok 42 "SenderID" 5 4 16) (mkPtok 40 "," 5 22 19)) (mkPtok 42 "SenderID" 5 4 16) (mkPtok 42 "Flags" 5 13 17) (Some (mkPtok 43 "``" 5 19 18)) (mkPtok 40 "," 5 22 19))); (MIRef (mkRefMetaDecl (mkSpan (mkPtok 42 "Symbol" 6 4 20) (mkPtok 40 "," 6 18 22)) (mkPtok 42 "Symbol" 6 4 20) (mkPtok 42 "SeqNum" 6 11 21) None (mkPtok 40 "," 6 18 22)))] (mkPtok 3 "}" 7 0 23))); (DPacket (mkPacketDef (mkSpan (mkPtok 34 "root" 9 0 25) (mkPtok 3 "}" 14 0 49)) (Some (mkPtok 34 "root" 9 0 25)) (mkPtok 35 "packet" 9 5 26) (mkPtok 42 "Ack" 9 12 27) (mkPtok 2 "{" 9 16 28) [(mkFieldWithAttr (mkSpan (mkPtok 9 "@tag(" 10 4 29) (mkPtok 40 "," 10 28 36)) [(FATag (mkSpan (mkPtok 9 "@tag(" 10 4 29) (mkPtok 6 ")" 10 13 31)) (mkTagAttr (mkSpan (mkPtok 9 "@tag(" 10 4 29) (mkPtok 6 ")" 10 13 31)) (mkPtok 9 "@tag(" 10 4 29) (mkPtok 30 "35" 10 10 30) (mkPtok 6 ")" 10 13 31)))] (MetaField (mkSpan (mkPtok 12 "char[" 10 15 32) (mkPtok 40 "," 10 28 36)) None (mkMetaDecl (mkSpan (mkPtok 12 "char[" 10 15 32) (mkPtok 40 "," 10 28 36)) (TyFixed (mkSpan (mkPtok 12 "char[" 10 15 32) (mkPtok 13 "]" 10 23 34)) (mkFixedString (mkSpan (mkPtok 12 "char[" 10 15 32) (mkPtok 13 "]" 10 23 34)) (mkPtok 12 "char[" 10 15 32) (mkPtok 30 "1" 10 21 33) (mkPtok 13 "]" 10 23 34))) (mkPtok 42 "px" 10 25 35) None (mkPtok 40 "," 10 28 36)))); (mkFieldWithAttr (mkSpan (mkPtok 32 "@leftPad" 11 4 37) (mkPtok 40 "," 12 22 45)) [(FAPadding (mkSpan (mkPtok 32 "@leftPad" 11 4 37) (mkPtok 6 ")" 11 19 40)) (mkPaddingAttr (mkSpan (mkPtok 32 "@leftPad" 11 4 37) (mkPtok 6 ")" 11 19 40)) (mkPtok 32 "@leftPad" 11 4 37) (mkPtok 8 "(" 11 13 38) (Some (mkPtok 33 "'0'" 11 15 39)) (mkPtok 6 ")" 11 19 40)))] (MetaField (mkSpan (mkPtok 12 "char[" 12 4 41) (mkPtok 40 "," 12 22 45)) None (mkMetaDecl (mkSpan (mkPtok 12 "char[" 12 4 41) (mkPtok 40 "," 12 22 45)) (TyFixed (mkSpan (mkPtok 12 "char[" 12 4 41) (mkPtok 13 "]" 12 13 43)) (mkFixedString (mkSpan (mkPtok 12 "char[" 12 4 41) (mkPtok 13 "]" 12 13 43)) (mkPtok 12 "char[" 12 4 41) (mkPtok 30 "16" 12 10 42) (mkPtok 13 "]" 12 13 43))) (mkPtok 42 "seq_no" 12 15 44) None (mkPtok 40 "," 12 22 45)))); (mkFieldWithAttr (mkSpan (mkPtok 36 "repeat" 13 4 46) (mkPtok 40 "," 13 20 48)) [] (ObjectField (mkSpan (mkPtok 36 "repeat" 13 4 46) (mkPtok 40 "," 13 20 48)) (Some (mkPtok 36 "repeat" 13 4 46)) (mkPtok 42 "SenderID" 13 11 47) None None (mkPtok 40 "," 13 20 48)))] (mkPtok 3 "}" 14 0 49))); (DPacket (mkPacketDef (mkSpan (mkPtok 35 "packet" 15 0 50) (mkPtok 3 "}" 20 0 70)) None (mkPtok 35 "packet" 15 0 50) (mkPtok 42 "Fill" 15 7 51) (mkPtok 2 "{" 15 12 52) [(mkFieldWithAttr (mkSpan (mkPtok 15 "string" 16 4 53) (mkPtok 40 "," 16 17 55)) [] (MetaField (mkSpan (mkPtok 15 "string" 16 4 53) (mkPtok 40 "," 16 17 55)) None (mkMetaDecl (mkSpan (mkPtok 15 "string" 16 4 53) (mkPtok 40 "," 16 17 55)) (TyDynamic (mkSpan (mkPtok 15 "string" 16 4 53) (mkPtok 15 "string" 16 4 53)) (mkDynamicString (mkSpan (mkPtok 15 "string" 16 4 53) (mkPtok 15 "string" 16 4 53)) (mkPtok 15 "string" 16 4 53))) (mkPtok 42 "venue" 16 11 54) None (mkPtok 40 "," 16 17 55)))); (mkFieldWithAttr (mkSpan (mkPtok 9 "@tag(" 17 4 56) (mkPtok 40 "," 17 33 62)) [(FATag (mkSpan (mkPtok 9 "@tag(" 17 4 56) (mkPtok 6 ")" 17 15 58)) (mkTagAttr (mkSpan (mkPtok 9 "@tag(" 17 4 56) (mkPtok 6 ")" 17 15 58)) (mkPtok 9 "@tag(" 17 4 56) (mkPtok 30 "1128" 17 10 57) (mkPtok 6 ")" 17 15 58)))] (MetaField (mkSpan (mkPtok 36 "repeat" 17 17 59) (mkPtok 40 "," 17 33 62)) (Some (mkPtok 36 "repeat" 17 17 59)) (mkMetaDecl (mkSpan (mkPtok 25 "i16" 17 24 60) (mkPtok 40 "," 17 33 62)) (TyBasic (mkSpan (mkPtok 25 "i16" 17 24 60) (mkPtok 25 "i16" 17 24 60)) (mkBasicType (mkSpan (mkPtok 25 "i16" 17 24 60) (mkPtok 25 "i16" 17 24 60)) (mkPtok 25 "i16" 17 24 60))) (mkPtok 42 "note" 17 28 61) None (mkPtok 40 "," 17 33 62)))); (mkFieldWithAttr (mkSpan (mkPtok 23 "u64" 18 4 63) (mkPtok 40 "," 18 15 65)) [] (MetaField (mkSpan (mkPtok 23 "u64" 18 4 63) (mkPtok 40 "," 18 15 65)) None (mkMetaDecl (mkSpan (mkPtok 23 "u64" 18 4 63) (mkPtok 40 "," 18 15 65)) (TyBasic (mkSpan (mkPtok 23 "u64" 18 4 63) (mkPtok 23 "u64" 18 4 63)) (mkBasicType (mkSpan (mkPtok 23 "u64" 18 4 63) (mkPtok 23 "u64" 18 4 63)) (mkPtok 23 "u64" 18 4 63))) (mkPtok 42 "seq_no" 18 8 64) None (mkPtok 40 "," 18 15 65)))); (mkFieldWithAttr (mkSpan (mkPtok 24 "i8" 19 4 66) (mkPtok 40 "," 19 14 69)) [] (MetaField (mkSpan (mkPtok 24 "i8" 19 4 66) (mkPtok 40 "," 19 14 69)) None (mkMetaDecl (mkSpan (mkPtok 24 "i8" 19 4 66) (mkPtok 40 "," 19 14 69)) (TyBasic (mkSpan (mkPtok 24 "i8" 19 4 66) (mkPtok 24 "i8" 19 4 66)) (mkBasicType (mkSpan (mkPtok 24 "i8" 19 4 66) (mkPtok 24 "i8" 19 4 66)) (mkPtok 24 "i8" 19 4 66))) (mkPtok 42 "b" 19 7 67) (Some (mkPtok 43 (string_of_bytes [96; 230; 182; 136; 230; 129; 175; 96]%N) 19 9 68)) (mkPtok 40 "," 19 14 69))))] (mkPtok 3 "}" 20 0 70))); (DPacket (mkPacketDef (mkSpan (mkPtok 35 "packet" 22 0 72) (mkPtok 3 "}" 25 0 84)) None (mkPtok 35 "packet" 22 0 72) (mkPtok 42 "Cancel" 22 7 73) (mkPtok 2 "{" 22 14 74) [(mkFieldWithAttr (mkSpan (mkPtok 36 "repeat" 23 4 75) (mkPtok 40 "," 23 16 77)) [] (ObjectField (mkSpan (mkPtok 36 "repeat" 23 4 75) (mkPtok 40 "," 23 16 77)) (Some (mkPtok 36 "repeat" 23 4 75)) (mkPtok 42 "Fill" 23 11 76) None None (mkPtok 40 "," 23 16 77))); (mkFieldWithAttr (mkSpan (mkPtok 32 "@rightPad" 24 4 78) (mkPtok 40 "," 24 34 83)) [(FAPadding (mkSpan (mkPtok 32 "@rightPad" 24 4 78) (mkPtok 6 ")" 24 23 81)) (mkPaddingAttr (mkSpan (mkPtok 32 "@rightPad" 24 4 78) (mkPtok 6 ")" 24 23 81)) (mkPtok 32 "@rightPad" 24 4 78) (mkPtok 8 "(" 24 14 79) (Some (mkPtok 33 "'\x00'" 24 16 80)) (mkPtok 6 ")" 24 23 81)))] (ObjectField (mkSpan (mkPtok 42 "SenderID" 24 25 82) (mkPtok 40 "," 24 34 83)) None (mkPtok 42 "SenderID" 24 25 82) None None (mkPtok 40 "," 24 34 83)))] (mkPtok 3 "}" 25 0 84)))]).
-Eval vm_compute in ("<<<W220_alias_short>>>" ++ sh_escaped (render (rw_alias_short t220)) "").
-Eval vm_compute in ("<<<W220_alias_long>>>" ++ sh_escaped (render (rw_alias_long t220)) "").
-Eval vm_compute in ("<<<W220_alias_long_opts>>>" ++ sh_escaped (render (rw_alias_long_opts t220)) "").
-Eval vm_compute in ("<<<W220_zchar>>>" ++ sh_escaped (render (rw_zchar t220)) "").
-Eval vm_compute in ("<<<W220_drop_default_pad>>>" ++ sh_escaped (render (rw_drop_default_pad t220)) "").
-Eval vm_compute in ("<<<W220_add_default_pad>>>" ++ sh_escaped (render (rw_add_default_pad t220)) "").
-Eval vm_compute in ("<<<W220_prefix_attr>>>" ++ sh_escaped (render (rw_prefix_attr t220)) "").
-Eval vm_compute in ("<<<W220_default_options>>>" ++ sh_escaped (render (rw_default_options t220)) "").
-Eval vm_compute in ("<<<W220_expand_keys>>>" ++ sh_escaped (render (rw_expand_keys t220)) "").
-Eval vm_compute in ("<<<W220_inline_meta>>>" ++ sh_escaped (render (rw_inline_meta t220)) "").
-Eval vm_compute in ("<<<W220_seps_all>>>" ++ sh_escaped (render (rw_seps_all t220)) "").
-Eval vm_compute in ("<<<W220_seps_none>>>" ++ sh_escaped (render (rw_seps_none t220)) "").
-Eval vm_compute in ("<<<W220_drop_docs>>>" ++ sh_escaped (render (rw_drop_docs t220)) "").
+Definition t52 : pt := (mkPacket (mkPtok 35 "packet" 1 0 0) (Some (mkPtok 3 "}" 1 75 30)) [(DPacket (mkPacketDef (mkSpan (mkPtok 35 "packet" 1 0 0) (mkPtok 3 "}" 1 17 6)) None (mkPtok 35 "packet" 1 0 0) (mkPtok 42 "B" 1 7 1) (mkPtok 2 "{" 1 9 2) [(mkFieldWithAttr (mkSpan (mkPtok 20 "u8" 1 11 3) (mkPtok 40 "," 1 15 5)) [] (MetaField (mkSpan (mkPtok 20 "u8" 1 11 3) (mkPtok 40 "," 1 15 5)) None (mkMetaDecl (mkSpan (mkPtok 20 "u8" 1 11 3) (mkPtok 40 "," 1 15 5)) (TyBasic (mkSpan (mkPtok 20 "u8" 1 11 3) (mkPtok 20 "u8" 1 11 3)) (mkBasicType (mkSpan (mkPtok 20 "u8" 1 11 3) (mkPtok 20 "u8" 1 11 3)) (mkPtok 20 "u8" 1 11 3))) (mkPtok 42 "x" 1 14 4) None (mkPtok 40 "," 1 15 5))))] (mkPtok 3 "}" 1 17 6))); (DPacket (mkPacketDef (mkSpan (mkPtok 34 "root" 1 19 7) (mkPtok 3 "}" 1 75 30)) (Some (mkPtok 34 "root" 1 19 7)) (mkPtok 35 "packet" 1 24 8) (mkPtok 42 "A" 1 31 9) (mkPtok 2 "{" 1 33 10) [(mkFieldWithAttr (mkSpan (mkPtok 20 "u8" 1 35 11) (mkPtok 40 "," 1 39 13)) [] (MetaField (mkSpan (mkPtok 20 "u8" 1 35 11) (mkPtok 40 "," 1 39 13)) None (mkMetaDecl (mkSpan (mkPtok 20 "u8" 1 35 11) (mkPtok 40 "," 1 39 13)) (TyBasic (mkSpan (mkPtok 20 "u8" 1 35 11) (mkPtok 20 "u8" 1 35 11)) (mkBasicType (mkSpan (mkPtok 20 "u8" 1 35 11) (mkPtok 20 "u8" 1 35 11)) (mkPtok 20 "u8" 1 35 11))) (mkPtok 42 "k" 1 38 12) None (mkPtok 40 "," 1 39 13)))); (mkFieldWithAttr (mkSpan (mkPtok 38 "match" 1 41 14) (mkPtok 40 "," 1 73 29)) [] (MatchField (mkSpan (mkPtok 38 "match" 1 41 14) (mkPtok 40 "," 1 73 29)) (mkMatchFieldDecl (mkSpan (mkPtok 38 "match" 1 41 14) (mkPtok 3 "}" 1 72 28)) (mkPtok 38 "match" 1 41 14) (mkPtok 42 "k" 1 47 15) (mkPtok 17 "as" 1 49 16) (mkPtok 42 "m" 1 52 17) (mkPtok 2 "{" 1 54 18) [(mkMatchPair (mkSpan (mkPtok 18 "[" 1 56 19) (mkPtok 42 "B" 1 70 27)) (MKList (mkKeyList (mkSpan (mkPtok 18 "[" 1 56 19) (mkPtok 13 "]" 1 66 25)) (mkPtok 18 "[" 1 56 19) (mkPtok 30 "1" 1 57 20) [((mkPtok 40 "," 1 58 21), (mkPtok 31 """a""" 1 60 22)); ((mkPtok 40 "," 1 63 23), (mkPtok 30 "2" 1 65 24))] (mkPtok 13 "]" 1 66 25))) (mkPtok 39 ":" 1 68 26) (mkPtok 42 "B" 1 70 27) None)] (mkPtok 3 "}" 1 72 28)) (mkPtok 40 "," 1 73 29)))] (mkPtok 3 "}" 1 75 30)))]).
+Eval vm_compute in ("<<<W52_alias_short>>>" ++ sh_escaped (render (rw_alias_short t52)) "").
+Eval vm_compute in ("<<<W52_alias_long>>>" ++ sh_escaped (render (rw_alias_long t52)) "").
+Eval vm_compute in ("<<<W52_alias_long_opts>>>" ++ sh_escaped (render (rw_alias_long_opts t52)) "").
+Eval vm_compute in ("<<<W52_zchar>>>" ++ sh_escaped (render (rw_zchar t52)) "").
+Eval vm_compute in ("<<<W52_drop_default_pad>>>" ++ sh_escaped (render (rw_drop_default_pad t52)) "").
+Eval vm_compute in ("<<<W52_add_default_pad>>>" ++ sh_escaped (render (rw_add_default_pad t52)) "").
+Eval vm_compute in ("<<<W52_prefix_attr>>>" ++ sh_escaped (render (rw_prefix_attr t52)) "").
+Eval vm_compute in ("<<<W52_default_options>>>" ++ sh_escaped (render (rw_default_options t52)) "").
+Eval vm_compute in ("<<<W52_expand_keys>>>" ++ sh_escaped (render (rw_expand_keys t52)) "").
+Eval vm_compute in ("<<<W52_inline_meta>>>" ++ sh_escaped (render (rw_inline_meta t52)) "").
+Eval vm_compute in ("<<<W52_seps_all>>>" ++ sh_escaped (render (rw_seps_all t52)) "").
+Eval vm_compute in ("<<<W52_seps_none>>>" ++ sh_escaped (render (rw_seps_none t52)) "").
+Eval vm_compute in ("<<<W52_drop_docs>>>" ++ sh_escaped (render (rw_drop_docs t52)) "").
